@@ -3,7 +3,7 @@ PROPS["C06"] = {
     "outside": "wall-clock bounds and the Go scheduler's fairness (the no-stall claim is checked as: every hand-off on the unbuffered In channel completes, a stuck relay would be reported as deadlock); kernel/TCP behaviour beyond the model (dial refused, write ok/blocked/broken, read EOF on peer close); endpoint closing mid-stream without spool (transition, see C07); throttled endpoints (only the two extremes healthy/never-reading)",
     "assumptions": ["TCP endpoint model in the engine (engine/intrinsics_net.go)", "goroutines pre-empt only at blocking operations"],
     "groups": [
-        {"pkg": "destination", "hdir": "destination", "no_native": True, "specs": [spec("C06/steady", "VerifC06Steady")]},
+        {"pkg": "destination", "hdir": "destination", "native_optional": True, "specs": [spec("C06/steady", "VerifC06Steady")]},
     ],
 }
 PROPS["C07"] = {
@@ -11,6 +11,6 @@ PROPS["C07"] = {
     "outside": "the timing premise (failure detected while the lines are still within keepSafe's >=10 s window; the keepSafe expiry ticker does not fire in the composed scenario); repeated outages; all goroutine interleavings (run-to-block scheduling with forks over ready select cases only); kernel acknowledging bytes it later loses",
     "assumptions": ["TCP endpoint model and in-memory file-system model", "violations of the composed scenario are schedule-dependent and reported without native replay (structural class)"],
     "groups": [
-        {"pkg": "destination", "hdir": "destination", "no_native": True, "specs": [spec("C07/outage", "VerifC07Outage"), spec("C07/keepsafe", "VerifC07KeepSafe")]},
+        {"pkg": "destination", "hdir": "destination", "native_optional": True, "specs": [spec("C07/outage", "VerifC07Outage"), spec("C07/keepsafe", "VerifC07KeepSafe")]},
     ],
 }
